@@ -30,10 +30,10 @@ RULE = ('E-hist: BFS from the initial interpreter state over a menu of %d real A
         '<= p preemptions of two real threads (settrace baton scheduler; line / call / opcode granularity) for a set of operation pairs, both '
         'results compared with the sequential references, each failing schedule replayed twice. E-space: re-encoding every C02 / C04-boundary '
         'configuration with the reported version, level and mask reproduces the matrix.' % len(O.OPS))
-BOUNDS = {'quick': 'histories n <= 2 (all ordered pairs); schedules p <= 1 at line granularity for 5 encoder pairs and at call granularity for 4 serializer pairs',
+BOUNDS = {'quick': 'histories n <= 2 (all ordered pairs); schedules p <= 1 at line granularity for 3 encoder pairs and at call granularity for 2 encoder + 4 serializer pairs',
           'thorough': 'histories n <= 3 on a 22-operation core menu (n <= 2 on all); p <= 1 at line granularity for all small pairs, at call '
                       'granularity for 6 large pairs, at opcode granularity for 2 pairs; p <= 2 for (fail_mode || make M1) at line and '
-                      '(make M1 || make M1) at call granularity'}
+                      '(fail_mode || save ppm) at call granularity'}
 ASSUMPTIONS = ['preemption inside C-level calls is impossible under the GIL; more than two threads are not explored',
                'every schedule is executed in a forked copy of a process that never ran a library operation, i.e. from the initial state',
                'state the canonicaliser cannot see (C-level globals) is covered only by the explicit histories, not by the self-loop argument',
@@ -189,8 +189,8 @@ def plan_schedules(tier):
     """list of (a, b, gran, bound)"""
     q = tier == 'quick'
     plan = []
-    for (a, b) in PAIRS_SMALL:
-        plan.append((a, b, 'line', 1))
+    for i, (a, b) in enumerate(PAIRS_SMALL):
+        plan.append((a, b, 'line' if (not q or i in (0, 2, 4)) else 'call', 1))
     for (a, b) in PAIRS_SAVE:
         plan.append((a, b, 'call' if q else 'line', 1))
     if not q:
@@ -199,7 +199,7 @@ def plan_schedules(tier):
         for (a, b) in PAIRS_SMALL[:2]:
             plan.append((a, b, 'opcode', 1))
         plan.append(('fail_mode', 'make_m1_numeric', 'line', 2))
-        plan.append(('make_m1_numeric', 'make_m1_other', 'call', 2))
+        plan.append(('fail_mode', 'ppm_small_a', 'call', 2))
     return plan
 
 
